@@ -181,6 +181,12 @@ def c13(tier, seed):
             rep.violation("fresh-poller-within-grace", "a freshly created poller reports itself within the grace period although chronyd never answered", {"kind": "grace"})
         for v in res["violations"][:5]:
             rep.violation(v["signature"], v["what"], {"kind": "grace", "scenarios": [s for s in res["scenarios"] if s["violations"]]})
+        rr = djson(["refid"], timeout=120)
+        rep.evaluations += len(rr["rows"])
+        rep.traces += len(rr["rows"]) - len(rr["violations"])
+        rep.notes.append(f"refid: {len(rr['rows'])} (configured id string through the CLI parser, reported id) pairs through the real poller iteration")
+        for v in rr["violations"][:3]:
+            rep.violation(v["signature"], v["what"], {"kind": "refid", "rows": rr["rows"]})
     def extra2(rep):
         extra(rep)
         timelines(rep, tier)
@@ -192,7 +198,8 @@ def timelines(rep, tier):
     binary = build_release_daemon()
     fake = os.path.join(cb.build_harness(), "fakechrony")
     scripts = [("outage-recover-hang", "answer:3,gone:8,answer:2,silent:11", 25),
-               ("startup-silence-then-unsync", "silent:7,answer:3,leap3:3,gone:7", 21)]
+               ("startup-silence-then-unsync", "silent:7,answer:3,leap3:3,gone:7", 21),
+               ("useless-replies", "badreply:7,answer:2,badreply:12", 22)]
     if tier == "thorough":
         scripts += [("long-hang", "answer:2,silent:16,answer:3", 22), ("flapping", "answer:2,gone:3,answer:2,gone:6,answer:2", 16),
                     ("never-there", "gone:9", 9), ("unsync-only", "leap3:6,gone:7", 14)]
